@@ -508,3 +508,53 @@ Proof.
   intro B. split; [apply print_hex_spec; exact B|]. intros b I. apply fmt_02x_hex2.
   apply (proj1 (bytes_ok_In rsp) B b I).
 Qed.
+
+(* ------------------------------------------------------------------ stages of a run *)
+(* the connection is closed: the calls end with close_session, close *)
+Definition closes (calls : list istep) : bool :=
+  match rev calls with IClose :: ICloseSession :: _ => true | _ => false end.
+
+Definition stage_ok (shape : run_shape_t) (tbl : list exit_entry) (s : istep) (e : err) (needle : option string) : bool :=
+  match main_run shape tbl (Some (s, e)) with
+  | (calls, RunExit (Some msg) code) =>
+      negb (Z.eqb code 0) && closes calls
+      && match needle with Some n => is_substr n msg | None => negb (String.eqb msg EmptyString) end
+  | _ => false
+  end.
+
+(* the stages before the finally at which the BMC / transport can fail *)
+Definition fault_stages : list istep := [IOpen; IEstablish; ICommand].
+
+Definition stages_ok_b (shape : run_shape_t) (tbl : list exit_entry) : bool :=
+  forallb (fun s => forallb (fun cc => stage_ok shape tbl s (CCError cc) (Some (hex2 cc))) all_bytes
+                    && stage_ok shape tbl s TimeoutError None) fault_stages
+  && match main_run shape tbl None with
+     | ([IOpen; IEstablish; ICommand; ICloseSession; IClose], RunReturns) => true
+     | _ => false
+     end.
+
+Lemma stages_sound shape tbl : stages_ok_b shape tbl = true ->
+  main_run shape tbl None = ([IOpen; IEstablish; ICommand; ICloseSession; IClose], RunReturns) /\
+  forall s, In s fault_stages ->
+    (forall cc, (cc < 256)%N -> exists calls msg code,
+        main_run shape tbl (Some (s, CCError cc)) = (calls, RunExit (Some msg) code)
+        /\ code <> 0%Z /\ is_substr (hex2 cc) msg = true /\ closes calls = true) /\
+    (exists calls msg code,
+        main_run shape tbl (Some (s, TimeoutError)) = (calls, RunExit (Some msg) code)
+        /\ code <> 0%Z /\ msg <> EmptyString /\ closes calls = true).
+Proof.
+  unfold stages_ok_b. rewrite andb_true_iff. intros [A N]. split.
+  - destruct (main_run shape tbl None) as [calls e].
+    destruct calls as [|[] [|[] [|[] [|[] [|[] [|? ?]]]]]]; try discriminate.
+    destruct e; try discriminate. reflexivity.
+  - intros s I. rewrite forallb_forall in A. specialize (A s I). apply andb_true_iff in A. destruct A as [A T]. split.
+    + intros cc H. rewrite forallb_forall in A. specialize (A cc (all_bytes_in cc H)). unfold stage_ok in A.
+      destruct (main_run shape tbl (Some (s, CCError cc))) as [calls e]. destruct e as [|[msg|] code| |]; try discriminate.
+      rewrite !andb_true_iff in A. destruct A as [[A1 A2] A3]. exists calls, msg, code. repeat split; auto.
+      intro E. subst code. discriminate.
+    + unfold stage_ok in T.
+      destruct (main_run shape tbl (Some (s, TimeoutError))) as [calls e]. destruct e as [|[msg|] code| |]; try discriminate.
+      rewrite !andb_true_iff in T. destruct T as [[T1 T2] T3]. exists calls, msg, code. repeat split; auto.
+      * intro E. subst code. discriminate.
+      * intro E. subst msg. discriminate.
+Qed.
